@@ -286,7 +286,57 @@ def c17_extra(scratch, tier, seed, log):
     return [rec]
 
 
+# ------------------------------------------------------------------------------------------------
+# C02
+# ------------------------------------------------------------------------------------------------
+
+def c02(tier, seed):
+    out = []
+    quick_dyn = sorted(set([0, 3, 6, 7, 8] + [[1, 2, 4, 5][seed % 4]]))
+    for kind in ("s", "d"):
+        tname = "LutN" if kind == "s" else "Lut"
+        for n in range(0, 13):
+            q = (n <= 8) if kind == "s" else (n in quick_dyn)
+            fam = fam_name(kind, n)
+            tr = "quick" if q else "thorough"
+            cap = 8 * T(n) + 24
+            out.append(spec("verif_c02", "c02.rs", "c02_ext", "c02_ext_%s" % fam, [fam], cap + 2,
+                            tier=tr, n=n, fam=fam, mem=mem_for(n), timeout=900 if n <= 8 else 3000,
+                            covers={"reached": "SATISFIED", "equal pair": "SATISFIED", "different pair": "SATISFIED"},
+                            what="%s n=%d: symbolic a, b: a==b iff no differing assignment (Skolem witness = lowest differing bit, must be < 2^n); cmp==Equal iff ==; equal values feed identical byte streams to a recording Hasher" % (tname, n)))
+            out.append(spec("verif_c02", "c02.rs", "c02_step_ops", "c02_step_ops_%s" % fam, [fam], 8 * T(n) + 2,
+                            tier=tr, n=n, fam=fam, mem=mem_for(n), timeout=900 if n <= 8 else 3000,
+                            covers={"reached": "SATISFIED", "last arm": "SATISFIED"},
+                            what="%s n=%d: one step of each of the 28 operator forms from arbitrary well-formed operands yields a well-formed table" % (tname, n)))
+            out.append(spec("verif_c02", "c02.rs", "c02_step_transforms", "c02_step_transforms_%s" % fam, [fam], 8 * T(n) + 2,
+                            tier=tr, n=n, fam=fam, mem=mem_for(n), timeout=900 if n <= 8 else 3000,
+                            covers={"reached": "SATISFIED", "set_value arm": "SATISFIED"},
+                            what="%s n=%d: set_bit/unset_bit/set_value/flip/swap/swap_adjacent (+in-place)/cofactors/from_cofactors from arbitrary well-formed tables and symbolic in-range arguments keep well-formedness; set_value changes exactly one assignment" % (tname, n)))
+            out.append(spec("verif_c02", "c02.rs", "c02_step_ctors", "c02_step_ctors_%s" % fam, [fam], max(8 * T(n), 8) + 2,
+                            tier=tr, n=n, fam=fam, mem=mem_for(n), timeout=900 if n <= 8 else 3000,
+                            covers={"reached": "SATISFIED", "symmetric with all-ones mask": "SATISFIED"},
+                            what="%s n=%d: every named constructor with its parameter ranging over all usize, Default, and LutN->Lut conversion produce well-formed tables" % (tname, n)))
+            if n <= 9:
+                out.append(spec("verif_c02", "c02.rs", "c02_step_iter", "c02_step_iter_%s" % fam, [fam], 8 * T(n) + 2,
+                                tier=tr, n=n, fam=fam, mem=mem_for(n),
+                                what="%s n=%d: items handed out by all_functions are well-formed and distinct (first two)" % (tname, n)))
+    for (a, b) in [(0, 1), (1, 2), (2, 0), (5, 6), (6, 5), (3, 6), (7, 8), (9, 8), (12, 11)]:
+        out.append(spec("verif_c02", "c02.rs", "c02_diffn", "c02_diffn_d%d_d%d" % (a, b), ["d%d" % a, "d%d" % b],
+                        8 * max(T(a), T(b)) + 2, tier="quick" if max(a, b) <= 8 else "thorough", n=max(a, b),
+                        fam="d%d,d%d" % (a, b), mem=mem_for(max(a, b)),
+                        covers={"reached": "SATISFIED", "same first block": "SATISFIED" if T(a) == T(b) else "UNSAT"},
+                        what="Lut of %d vs %d variables never compare equal, even with identical blocks" % (a, b)))
+    # the successor step of the iterator from an arbitrary state (kernel lemma shared with C08)
+    for n in range(0, 13):
+        out.append(spec("verif_k08", "k08.rs", "k08_next", "k08_next_%d" % n, [n, T(n)], T(n) + 2,
+                        tier="quick" if n <= 8 else "thorough", n=n, fam="kernel", level="kernel", mem=mem_for(n),
+                        covers={"reached": "SATISFIED", "low word all ones": "SATISFIED", "wrapped to zero": "SATISFIED"},
+                        what="operations::next_inplace n=%d: the successor of an arbitrary well-formed table is well-formed" % n))
+    return out
+
+
 PROPS = {
+    "C02": c02,
     "C17": c17,
     "C08": c08,
     "C11": c11,
